@@ -372,11 +372,12 @@ val bcast_seq : nat -> nat list -> pyval list -> pyval list option
 
 type var = { vdtype : dtype; vshape : nat list; vdata : pyval list }
 
-type regent =
-| RName of char list
-| RJunk
+type regent = char list
+  (* singleton inductive, whose constructor was RName *)
 
 val reg_mem : char list -> regent list -> bool
+
+val reg_names : regent list -> char list list
 
 type ckind =
 | CVC
@@ -414,12 +415,24 @@ type key =
 | KTuple3
 | KOther
 
+type query =
+| QCompletions
+| QDir
+| QContains of char list
+| QNbytes
+
+type qval =
+| VNames of char list list
+| VBool of bool
+| VNat of nat
+
 type op =
 | AddVariable of char list * operand * dreq option
 | SetAttr of char list * operand * char list option
 | SetItem of key * operand
 | ReplaceValues of (char list * operand) list
 | AddAttribute of char list * operand
+| Query of query
 
 val find_pos : z -> z list -> nat option
 
@@ -506,16 +519,6 @@ val setattr :
   outcome) -> (pyval list -> dtype) -> char list -> operand -> char list
   option -> state -> res
 
-type hidden =
-| HRegistry
-| HNoItemAssign
-| HMissing
-| HUnmodelled
-
-val hidden_lookup : char list -> state -> hidden
-
-val regent_of : operand -> regent
-
 val setitem :
   (dtype -> pyval -> pyval outcome) -> (dtype -> dtype -> pyval -> pyval
   outcome) -> (pyval list -> dtype) -> (dtype -> exn) -> key -> operand ->
@@ -535,6 +538,12 @@ val add_variable :
   (dtype -> pyval -> pyval outcome) -> (dtype -> dtype -> pyval -> pyval
   outcome) -> (pyval list -> dtype) -> (dtype -> pyval list -> dreq -> dtype)
   -> char list -> operand -> dreq option -> state -> res
+
+val itemsize : dtype -> nat
+
+val nbytes_of : (char list -> char list) -> state -> nat outcome
+
+val read : query -> state -> state * qval outcome
 
 val step :
   (dtype -> pyval -> pyval outcome) -> (dtype -> dtype -> pyval -> pyval
@@ -562,8 +571,6 @@ val init_model :
   outcome) -> (pyval list -> dtype) -> (dtype -> pyval list -> dreq -> dtype)
   -> ckind -> z list -> bool -> dreq -> operand -> char list list ->
   (char list * operand) list -> res
-
-val itemsize : dtype -> nat
 
 val nbytes_own : state -> nat
 
@@ -629,6 +636,8 @@ val resolve_kwargs :
 val resolve_key : aobj -> key -> key
 
 val resolve_op : aobj -> op -> op
+
+val alias_read : aobj -> query -> state -> state * qval outcome
 
 val gen_alias_step :
   (dtype -> pyval -> pyval outcome) -> (dtype -> dtype -> pyval -> pyval
